@@ -56,7 +56,15 @@ func runSolver(cfg SolverCfg, file string, timeoutS int) (status, output string,
 	out, _ := cmd.CombinedOutput()
 	ms = time.Since(start).Milliseconds()
 	output = string(out)
-	first := strings.TrimSpace(strings.SplitN(output, "\n", 2)[0])
+	first := ""
+	for _, l := range strings.Split(output, "\n") {
+		l = strings.TrimSpace(l)
+		if l == "" || strings.HasPrefix(l, "WARNING") || strings.HasPrefix(l, "(warning") {
+			continue
+		}
+		first = l
+		break
+	}
 	switch first {
 	case "unsat", "sat", "unknown":
 		return first, output, ms
